@@ -59,6 +59,13 @@ def generate(seed, batch):
             # (sub-critical: also reference loads far below buckling, multipliers up to 1e11)
             'lam_min': (10 ** rng.uniform(1.5, 11.0) if rng.random() < 0.15 else rng.uniform(1.05, 30.0)) if sub else rng.uniform(0.05, 0.95),
         }
+        if rng.random() < 0.04:
+            # large and very sparse (a few entries per row, random pattern): the complete factorisation of KG - K has many
+            # times more entries than the matrix itself
+            scen['mat'].update(n=rng.randint(380, 560), nnull=rng.choice([0, 0, 3]), clustered=False, chain=False,
+                               kg=rng.choice(['minus-identity', 'w-only']), cond_exp=rng.choice([0.5, 1.0]))
+            scen['mat']['density'] = 2.5 / scen['mat']['n']
+            scen['sparse'] = True
         scen['k'] = rng.choice([1, 2, 3, 5, 10, 25, rng.randint(1, 25)])
         scen['scale_s'] = rng.uniform(0.1, 0.95) if rng.random() < 0.4 else None
         scen['cross_path'] = rng.random() < 0.4
